@@ -109,6 +109,32 @@ def lineThenSameLine : NList → Bool
 def lineCommentThenSameLine (prog : NList) : Bool :=
   anyProg (fun _ _ => false) lineThenSameLine prog
 
+def isOpenColon : Option Node → Bool
+  | some (.infix t _ none) => t.type = .COLON
+  | _ => false
+
+/-- direct children in which an open-ended `n:` is NOT in the one place the parser accepts it back
+(the index of `a[n:]`) -/
+def nonIndexChildren : Node → List (Option Node)
+  | .ret _ v => [v]
+  | .pre _ r => [r]
+  | .infix _ l r => [l, r]
+  | .forE _ c _ => [c]
+  | .ifE _ c _ _ => [c]
+  | .builtin _ ps => ps
+  | .func _ _ ps _ _ _ => ps
+  | .call _ f as => f :: as
+  | .array _ es => es
+  | .index t l i => if t.type = .LBRACKET then [l] else [l, i]
+  | .mapLit _ kvs => kvs
+  | .macroLit _ ps _ => ps
+  | _ => []
+
+/-- "open-ended-colon-outside-index": `["a":]`, `x / (a:)`… — the parser builds the open-ended `n:` node wherever
+a `:` is followed by `]`, but once printed elsewhere than directly inside `a[…]` (e.g. in parentheses) it does not parse back -/
+def openColonOutsideIndex (prog : NList) : Bool :=
+  anyProg (fun _ n => (nonIndexChildren n).any isOpenColon) (fun l => l.any isOpenColon) prog
+
 def isWordByte (b : UInt8) : Bool :=
   (97 ≤ b && b ≤ 122) || (65 ≤ b && b ≤ 90) || (48 ≤ b && b ≤ 57) || b = 95
 
@@ -143,7 +169,8 @@ def normalClasses (prog : NList) : List String :=
   (if repeatedAssocOnRight prog then ["repeated-associative-operator-on-the-right"] else []) ++
   (if numberBeforeDot prog then ["number-literal-next-to-dot"] else []) ++
   (if nonIdentParam prog then ["illegal-token-as-parameter"] else []) ++
-  (if lineCommentThenSameLine prog then ["line-comment-then-same-line-comment"] else [])
+  (if lineCommentThenSameLine prog then ["line-comment-then-same-line-comment"] else []) ++
+  (if openColonOutsideIndex prog then ["open-ended-colon-outside-index"] else [])
 
 /-- classes that explain a compact-mode failure -/
 def compactClasses (prog : NList) : List String :=
